@@ -181,6 +181,13 @@ type callSite struct {
 	pos            string
 }
 
+// acqEvent: function fn acquires `lock` while holding `held` (locally; the entry set of fn is added in Lean)
+type acqEvent struct {
+	fn, lock string
+	held     [][2]string
+	pos      string
+}
+
 type bal struct {
 	fn, lock, mode, how, pos string
 }
@@ -218,7 +225,9 @@ type analysis struct {
 	confCallers []string
 	summaries   map[string][][2]string // method id -> (field, kind) on receiver
 	pkgs        []*pkgInfo
-	reentrant   []callSite // direct re-acquisition inside one function (callee == caller)
+	events      []acqEvent        // every acquisition with the locks held just before it
+	poolField   map[string]string // keyed lock name -> pool field it locks
+	poolSite    map[string]string // pool field -> allocation site of the hashed mutex table
 	errs        []string
 }
 
@@ -593,11 +602,7 @@ func (c *fctx) acquire(x ast.Expr, op string, st state, n ast.Node) state {
 	if op == "RLock" {
 		mode = "shared"
 	}
-	if _, already := st[name]; already {
-		// Lock / RLock of a lock this function already holds: self deadlock (RWMutex read locks are not reentrant either
-		// once a writer is queued)
-		c.a.reentrant = append(c.a.reentrant, callSite{callee: c.fn, caller: c.fn, held: heldList(st), pos: c.pos(n)})
-	}
+	c.a.events = append(c.a.events, acqEvent{fn: c.fn, lock: name, held: heldList(st), pos: c.pos(n)})
 	st = st.clone()
 	c.a.bals = append(c.a.bals, bal{fn: c.fn, lock: name, mode: mode, how: "matched", pos: c.pos(n)})
 	st[name] = held{mode: mode, site: len(c.a.bals) - 1}
@@ -737,6 +742,7 @@ func (c *fctx) stmt(s ast.Stmt, st state) (state, bool) {
 				c.exprs(st, inner.Args...)
 				c.expr(sel.X, st)
 				name := "keyed:" + c.p.name + "." + sel.Sel.Name
+				c.a.events = append(c.a.events, acqEvent{fn: c.fn, lock: name, held: heldList(st), pos: c.pos(call)})
 				st = st.clone()
 				c.a.bals = append(c.a.bals, bal{fn: c.fn, lock: name, mode: "excl", how: "deferred", pos: c.pos(call)})
 				st[name] = held{mode: "excl", deferred: true, site: len(c.a.bals) - 1}
@@ -817,6 +823,7 @@ func (c *fctx) stmt(s ast.Stmt, st state) (state, bool) {
 							c.expr(sel.X, st)
 						}
 						c.handles[obj] = name
+						c.a.events = append(c.a.events, acqEvent{fn: c.fn, lock: name, held: heldList(st), pos: c.pos(inner)})
 						st = st.clone()
 						c.a.bals = append(c.a.bals, bal{fn: c.fn, lock: name, mode: "excl", how: "matched", pos: c.pos(inner)})
 						st[name] = held{mode: "excl", site: len(c.a.bals) - 1}
@@ -1636,18 +1643,80 @@ func acquiredLocks(a *analysis) (direct, trans map[string]map[string]bool) {
 func reentrantCalls(a *analysis, entry map[string]heldSet) []string {
 	_, trans := acquiredLocks(a)
 	var out []string
-	for _, st := range append(append([]callSite{}, a.sites...), a.reentrant...) {
-		heldAt := toSet(st.held)
-		for l, m := range entry[st.caller] {
+	pools := keyedPools(a)
+	same := func(x, y string) bool {
+		if x == y {
+			return true
+		}
+		px, ok1 := pools[x]
+		py, ok2 := pools[y]
+		return ok1 && ok2 && px == py
+	}
+	withEntry := func(fn string, held [][2]string) heldSet {
+		heldAt := toSet(held)
+		for l, m := range entry[fn] {
 			if heldAt[l] != "excl" {
 				heldAt[l] = m
 			}
 		}
-		for l := range heldAt {
-			if trans[st.callee][l] {
-				out = append(out, "reentrant-lock:"+l+"@"+st.caller+"->"+st.callee)
+		return heldAt
+	}
+	for _, st := range a.sites {
+		for l := range withEntry(st.caller, st.held) {
+			for t := range trans[st.callee] {
+				if same(l, t) {
+					out = append(out, "reentrant-lock:"+l+"@"+st.caller+"->"+st.callee)
+				}
 			}
 		}
+	}
+	for _, ev := range a.events {
+		for l := range withEntry(ev.fn, ev.held) {
+			if same(l, ev.lock) {
+				out = append(out, "reentrant-lock:"+l+"@"+ev.fn+"->"+ev.fn)
+			}
+		}
+	}
+	sort.Strings(out)
+	return out
+}
+
+// keyedNestingPairs mirrors the Lean `keyedNestings` / `poolOrder` (unit tests only): "outerSite->innerSite@fn"
+func keyedNestingPairs(a *analysis, entry map[string]heldSet) []string {
+	_, trans := acquiredLocks(a)
+	pools := keyedPools(a)
+	seen := map[string]bool{}
+	add := func(fn, outer, inner string) {
+		po, ok1 := pools[outer]
+		pi, ok2 := pools[inner]
+		if ok1 && ok2 {
+			seen[po+"->"+pi+"@"+fn] = true
+		}
+	}
+	total := func(fn string, held [][2]string) heldSet {
+		h := toSet(held)
+		for l, m := range entry[fn] {
+			if h[l] != "excl" {
+				h[l] = m
+			}
+		}
+		return h
+	}
+	for _, ev := range a.events {
+		for l := range total(ev.fn, ev.held) {
+			add(ev.fn, l, ev.lock)
+		}
+	}
+	for _, st := range a.sites {
+		for l := range total(st.caller, st.held) {
+			for t := range trans[st.callee] {
+				add(st.caller, l, t)
+			}
+		}
+	}
+	var out []string
+	for k := range seen {
+		out = append(out, k)
 	}
 	sort.Strings(out)
 	return out
@@ -1659,6 +1728,11 @@ func gen(repo string) (map[string]string, error) {
 		return nil, err
 	}
 	entry := entrySets(a)
+	// the cross-package wrapper alias must still be what the server wires
+	if src, err := os.ReadFile(filepath.Join(repo, "pkg/ipam/server/server.go")); err != nil ||
+		!strings.Contains(strings.Join(strings.Fields(string(src)), " "), "LockPoolFunc: s.plugin.LockDpPool") {
+		return nil, fmt.Errorf("pkg/ipam/server/server.go no longer wires `LockPoolFunc: s.plugin.LockDpPool` (keyed lock alias of the pool API)")
+	}
 	// init phase: least fixpoint from the designated roots
 	initFns := map[string]bool{}
 	for _, r := range initRoots {
@@ -1964,13 +2038,42 @@ func gen(repo string) (map[string]string, error) {
 	}
 	emitAcq("acqDirect", direct)
 	emitAcq("acqTrans", trans)
-	b.WriteString("def selfReacquire : List CallSite := [\n")
-	for i, s := range a.reentrant {
+	b.WriteString("def acqEvents : List AcqEvent := [\n")
+	for i, ev := range a.events {
 		sep := ","
-		if i == len(a.reentrant)-1 {
+		if i == len(a.events)-1 {
 			sep = ""
 		}
-		fmt.Fprintf(&b, "  ⟨%d, %d, %s, %s⟩%s\n", fnID[s.callee], fnID[s.caller], heldLean(s.held), fg.LeanStr(s.pos), sep)
+		fmt.Fprintf(&b, "  ⟨%d, %d, %s, %s⟩%s  -- %s in %s\n", fnID[ev.fn], lockID[ev.lock], heldLean(ev.held), fg.LeanStr(ev.pos), sep, ev.lock, ev.fn)
+	}
+	b.WriteString("]\n\n")
+	// ---- keyed lock pools: wrapper -> pool field -> allocation site
+	pools := keyedPools(a)
+	var siteNames []string
+	siteID := map[string]int{}
+	var poolLocks []string
+	for l := range pools {
+		poolLocks = append(poolLocks, l)
+	}
+	sort.Strings(poolLocks)
+	for _, l := range poolLocks {
+		if _, ok := siteID[pools[l]]; !ok {
+			siteID[pools[l]] = len(siteNames)
+			siteNames = append(siteNames, pools[l])
+		}
+	}
+	strList("keyedPoolSites", siteNames)
+	var poolFields []string
+	for _, l := range poolLocks {
+		poolFields = append(poolFields, l+" -> "+a.poolField[l]+" -> "+pools[l])
+	}
+	strList("keyedLockPoolNames", poolFields)
+	b.WriteString("def keyedLockPools : List (Lock × Nat) := [")
+	for i, l := range poolLocks {
+		if i > 0 {
+			b.WriteString(", ")
+		}
+		fmt.Fprintf(&b, "(%d, %d)", lockID[l], siteID[pools[l]])
 	}
 	b.WriteString("]\n\n")
 	// ---- objects from a lister / informer cache
